@@ -355,6 +355,7 @@ def str_parts(e):
 
 def _merge(parts):
     out = []
+    parts = [("lit", v.value) if k == "expr" and isinstance(v, ast.Constant) and isinstance(v.value, str) else (k, v) for k, v in parts]
     for k, v in parts:
         if k == "lit" and out and out[-1][0] == "lit":
             out[-1] = ("lit", out[-1][1] + v)
